@@ -26,6 +26,7 @@ class Spy:
         self.delay = 0.0
         self.delay_fn = None  # callable(name, shown argument) -> virtual seconds, on top of `delay`
         self.read_cap = None  # a backend that returns at most this many bytes per read() (short reads are legal)
+        self.close_returns = None  # a backend whose close() returns this (the contract does not say what close returns)
         self.open_files = {}  # id(file) -> (path, mode)
         self.opened = 0
         self.closed = 0
@@ -163,7 +164,8 @@ def make_spy_factory(base_cls, spy):
             spy.open_files.pop(id(file), None)
             spy.closed += 1
             await _hit("close")
-            return await super().close(file)
+            r = await super().close(file)
+            return r if spy.close_returns is None else spy.close_returns
 
         async def rename(self, source, destination):
             await _hit("rename", (source, destination))
